@@ -6,6 +6,10 @@ ROOT = os.path.dirname(os.path.dirname(os.path.abspath(__file__)))
 
 # property id -> (technique, level text, level note, design ref)
 CHECKS = {
+ "C03": ("static ownership analysis: per subscribe closure a resource graph (subscribe-site results, composite subscriptions, timers, goroutines and their stop channels) checked for must-release by the teardown chain (RELEASE); CFG/lock-set checks of the subscriber's self-unsubscribe, of the teardown registration and of subscriptionImpl's finalizer loop",
+         "Static must-release check over all ~176 acquisitions of package ro: each upstream subscription, timer and looping goroutine reaches a node that the operator's teardown unsubscribes/stops/closes (or is awaited), so an operator returning nil instead of its upstream Unsubscribe, a ticker that is not stopped or a goroutine without a stop channel is reported for whichever operator it lands in. Plus structural checks of the three core mechanisms (self-unsubscribe after terminals outside the producer lock; teardown added to the subscriber; finalizers run once, recovered, outside the mutex, re-panic after the loop). Does not explore races.",
+         "Trusted: sync.Mutex semantics; upstream observables release their own resources (induction); two one-symbol exemptions (Share's connection-owned upstream subscription, Delay's pending timers) listed in rules/c03.go.",
+         "DESIGN.md section 4, C03"),
  "C02": ("static analysis: emission-context concurrency relation over the model of every subscribe closure (MULTI-PRODUCER=>SAFE), decision-table evaluation of subscriber reuse (NO-DOWNGRADE), constructor/mode tables (MODE-TABLE), CFG lock-set data-flow on subscriberImpl and the subjects (LOCK-REGION, SUBJECT-BROADCAST-LOCKED)",
          "Static discipline check of the premises of the serialisation argument: deliveries only inside the producer lock region; the lock is real exactly in safe modes; every operator whose destination can be reached from two possibly-concurrent contexts (derived from the code, not from a name list: 23 operators today) uses a safe constructor; a subscriber is never replaced by a weaker one; subjects broadcast under their mutex. It decides these for every operator on every run; it does not explore schedules.",
          "Trusted: sync.Mutex/atomic semantics; the hypothesis that each individual source is sequential; the ordering facts S1-S4 of DESIGN.md section 2; the model walker (unknown constructs fail closed).",
